@@ -248,7 +248,7 @@ func Mutate(t *rapid.T, root *Node, typeNames []string) []string {
 
 		s := sl[rapid.IntRange(0, len(sl)-1).Draw(t, "slot")]
 		cur := s.parent.Members[s.index]
-		kind := rapid.SampledFrom([]string{"replace-kind", "replace-kind", "replace-kind", "delete", "duplicate-key", "unknown-type", "unknown-field", "null-element", "deep-nest", "swap-type"}).Draw(t, "mutation")
+		kind := rapid.SampledFrom([]string{"replace-kind", "replace-kind", "replace-kind", "delete", "duplicate-key", "unknown-type", "unknown-field", "null-element", "deep-nest", "swap-type", "edit-string", "edit-string"}).Draw(t, "mutation")
 
 		switch kind {
 		case "replace-kind":
@@ -303,6 +303,33 @@ func Mutate(t *rapid.T, root *Node, typeNames []string) []string {
 			}
 
 			cur.Members = append(cur.Members, &Node{Kind: "null"})
+		case "edit-string":
+			// Same JSON kind, another text: a character dropped, a prefix, a
+			// suffix, doubled, emptied (a version "1.0" becomes "10", "1",
+			// ".0", ...; an RFC 3339 time loses its zone; base64 its padding).
+			if cur.Kind != "string" {
+				continue
+			}
+
+			rs := []rune(cur.Str)
+			v := ""
+
+			if len(rs) > 0 {
+				i := rapid.IntRange(0, len(rs)-1).Draw(t, "editpos")
+
+				switch rapid.IntRange(0, 4).Draw(t, "editop") {
+				case 0:
+					v = string(rs[:i]) + string(rs[i+1:])
+				case 1:
+					v = string(rs[:i])
+				case 2:
+					v = string(rs[i:])
+				case 3:
+					v = cur.Str + cur.Str
+				}
+			}
+
+			s.parent.Members[s.index] = &Node{Kind: "string", Str: v}
 		case "deep-nest":
 			depth := rapid.SampledFrom([]int{3, 100, 5000, 10001}).Draw(t, "depth")
 			s.parent.Members[s.index] = &Node{Kind: "raw", Str: strings.Repeat("[", depth) + cur.Text() + strings.Repeat("]", depth)}
